@@ -11,7 +11,7 @@ import gen_kern as G
 
 ID = "C09"
 LEAN_MODULES = ["CatiiProps.C09"]
-RULE = ("same exhaustive spaces as C08 (every empty/non-empty combination and exhaustion order up to 6/8 elements) plus "
+RULE = ("same exhaustive spaces as C08 (every empty/non-empty combination and exhaustion order up to 6/8 elements; the k-way union over all lists of <=3 subsets of [0, 3, 2^32-1]) plus "
         "random pairs over eleven overlap patterns (incl. lengths 1-4 against 65-5000; contiguous, embedded, strided and backwards views of buffers whose other words belong to neither operand, a stray word in the result being a read outside the inputs), unsorted and duplicate-carrying random arrays; each case runs the bounds-checked twin (IndexError per "
         "out-of-range source-level access) and the model (Err per checked access); non-trivial = at least one operand "
         "non-empty; distinct by input")
@@ -114,6 +114,30 @@ def run(ctx):
         view = ctx.rng.choice([None, "embedded", "stride2", "stride3", "backwards"])
         for fn in FN2:
             one(fn, a, b, view)
+    # the k-way union kernel on the bounds-checked twin: all lists of <= 3 subsets of [0, 3, 2^32-1], then random lists
+    import itertools
+    uni3 = list(G.subsets([0, 3, G.U32]))
+    lists = [[list(a) for a in arrays] for k in range(0, 4) for arrays in itertools.product(uni3, repeat=k)]
+    for _ in range(ctx.n(60)):
+        lists.append([G.random_sorted(ctx.rng, ctx.rng.randrange(0, 30), 0, ctx.rng.choice([30, 1000, G.U32]))
+                      for _k in range(ctx.rng.randrange(0, 6))])
+    for arrays in lists:
+        case = {"fn": "union_many", "arrays": arrays}
+        ctx.case(case if len(str(case)) < 300 else {"fn": "union_many", "lens": [len(a) for a in arrays]},
+                 nontrivial=any(arrays))
+        ctx.hit("fn:union_many")
+        try:
+            r = ck.set_union_merge_many([u32(a) for a in arrays])
+            got = [int(x) for x in np.asarray(r).tolist()]
+            if got != sorted(set().union(*[set(a) for a in arrays])) if arrays else got != []:
+                ctx.oracle_fail("set_union_merge_many(%s) on the bounds-checked twin returned %s" % (str(arrays)[:120], str(got)[:80]),
+                                case, cls="C09-many-wrong")
+        except IndexError as e:
+            ctx.oracle_fail("set_union_merge_many(%s): bounds-checked twin raised IndexError (%s) — the shipped kernel reads/writes "
+                            "outside its buffers here" % (str(arrays)[:120], e), case, cls="C09-oob")
+        except Exception as e:
+            ctx.oracle_fail("set_union_merge_many raised %s" % type(e).__name__, case, cls="C09-raises")
+    ctx.exhaustive.append("k-way union on the twin: all lists of 0..3 subsets of [0, 3, 2^32-1]")
     # unsorted / duplicate inputs: outside C08's precondition but inside C09's theorem
     for _ in range(ctx.n(300)):
         a = [ctx.rng.randrange(0, 12) for _ in range(ctx.rng.randrange(0, 9))]
@@ -196,5 +220,11 @@ def asan(ctx, subs):
 def replay(ctx, rep):
     ck = core.load_kernels("checked")
     c = rep["case"]
+    if c.get("fn") == "union_many":
+        try:
+            r = ck.set_union_merge_many([u32(a) for a in c["arrays"]])
+        except Exception:
+            return False
+        return [int(x) for x in np.asarray(r).tolist()] == (sorted(set().union(*[set(a) for a in c["arrays"]])) if c["arrays"] else [])
     got = twin(ck, c["fn"], c["l"], c["r"], c.get("view"))
     return got[0] == "ok" and all(x in set(c["l"]) | set(c["r"]) for x in got[1])
